@@ -166,7 +166,7 @@ func genC19Read(rt *rapid.T, nConns int) c19Read {
 			doc = b.Bytes()
 		}
 	}
-	r.Mangle = rapid.SampledFrom([]string{"", "", "", "", "truncate", "trailing", "two-values", "garbage"}).Draw(rt, "mangle")
+	r.Mangle = rapid.SampledFrom([]string{"", "", "", "", "truncate", "trailing", "two-values", "garbage", "overflow"}).Draw(rt, "mangle")
 	switch r.Mangle {
 	case "truncate":
 		if len(doc) > 1 {
@@ -176,6 +176,20 @@ func genC19Read(rt *rapid.T, nConns int) c19Read {
 		doc = append(doc, []byte(" x")...)
 	case "two-values":
 		doc = append(doc, []byte(" 1")...)
+	case "overflow":
+		// valid JSON whose decoding error text is long (a number literal of 40-300 digits
+		// that overflows a numeric field, reported with the field path)
+		digits := strings.Repeat("9", rapid.SampledFrom([]int{40, 60, 100, 200, 300}).Draw(rt, "digits"))
+		switch r.Target {
+		case "struct":
+			doc = []byte(`{"a":` + digits + `}`)
+		case "map", "any":
+			r.Target = "struct"
+			doc = []byte(`{"b":"x","c":[1,` + digits + `e400]}`)
+		default:
+			r.Target = "struct"
+			doc = []byte(`{"d":{"E":` + digits + `}}`)
+		}
 	case "garbage":
 		doc = []byte(rapid.SampledFrom([]string{"", "{", "nul", "[1,]", "{\"a\":}", "\xff\xfe", "'single'"}).Draw(rt, "garbageDoc"))
 	}
